@@ -7,10 +7,13 @@ pass-through wrapper), (c) the diagnostics finally shown.  Two oracles decide:
   ref  a small nondeterministic REFERENCE INTERPRETER written from docs/type_evaluation.md.  For an argument vector
        without unions it returns the *set of outcomes the document permits* (one outcome when the document decides
        everything; several where it is silent: value of a parameter whose argument kind is UNKNOWN, value of
-       *args/**kwargs, `*()`/`**{}` for variadics, whether a permissive match narrows an Any argument, an
-       unannotated `= ...` default).  The real outcome must be a member of that set.
+       *args/**kwargs, `*()`/`**{}` for variadics, whether a permissive (exclude_any=False) match narrows an Any
+       argument and for how long, an unannotated `= ...` default).  The real outcome must be a member of that set, or
+       a union of members when several are permitted.  A case in which an Any argument permissively matches a union
+       type is skipped (the argument may become a union, which the union-free reference does not model).
   law  the union law on the real code alone: eval(f, a|b) == eval(f, a) U eval(f, b), as sets of union members of the
-       revealed type and as sets of messages.
+       revealed type and as sets of messages.  Skipped when the union has an Any member and the body tests that
+       parameter with exclude_any=False (same unspecified narrowing on both sides of the law).
 """
 from __future__ import annotations
 
@@ -40,8 +43,18 @@ RULE = (
     "operands). Calls: every parameter passed positionally / by keyword / omitted / through a *(..) or **{..} literal "
     "/ through *xs or **kw of unknown length, extra arguments into *args/**kwargs, `*()`/`**{}`; argument types: "
     "literals, classes, enum members, Any (explicit and unannotated), 2-3 member unions (one or two per call); every "
-    "union call is accompanied by the calls for each member combination. Non-trivial = distinct (function, call) "
-    "text where the body has >= 2 primitive conditions and the function's call set reached >= 2 distinct outcomes."
+    "union call is accompanied by the calls for each member combination. A systematic part, identical under every "
+    "seed, precedes the random one: S1 every value test (is_of_type over 21 types x exclude_any, 4 comparison "
+    "operators x 7 constants, plain and negated) x every argument; S2 an argument-kind probe for every parameter of "
+    "every signature with <= 2 parameters x 3 default forms x *args/**kwargs, ~14 call shapes each; S3 two value "
+    "tests of one union/Any argument in sequence, nested, and under and/or with both polarities. Non-trivial = "
+    "distinct (function, call) text where the body has >= 2 primitive conditions and the function's call set "
+    "reached >= 2 distinct outcomes."
+)
+LEVEL_TEXT = (
+    "exploration: conformance to the reference interpreter / the union law was observed on every generated case "
+    "except the listed mechanisms; nothing is claimed for bodies outside the restricted grammar (generic evaluators, "
+    "overloaded evaluators, Callable compatibility are not exercised)"
 )
 ASSUMPTIONS = [
     "docs/type_evaluation.md is the specification; the reference interpreter encodes only what it states and returns "
@@ -57,9 +70,9 @@ FLOORS = {
     "quick": {"distinct_nontrivial": 24000, "bodies": 800, "systematic_bodies": 2000, "ref_checked": 50000,
               "ref_decided": 50000, "law_checked": 15000, "kind_UNKNOWN": 3000, "kind_DEFAULT": 15000,
               "errors_fired": 25000},
-    "thorough": {"distinct_nontrivial": 300000, "bodies": 12000, "systematic_bodies": 2000, "ref_checked": 700000,
-                 "ref_decided": 650000, "law_checked": 200000, "kind_UNKNOWN": 40000, "kind_DEFAULT": 200000,
-                 "errors_fired": 300000},
+    "thorough": {"distinct_nontrivial": 100000, "bodies": 8000, "systematic_bodies": 2000, "ref_checked": 300000,
+                 "ref_decided": 300000, "law_checked": 80000, "kind_UNKNOWN": 20000, "kind_DEFAULT": 100000,
+                 "errors_fired": 120000},
 }
 NSHARDS = 16
 WATCHDOG_S = {"quick": 900, "thorough": 7200}
@@ -425,6 +438,11 @@ class Overflow(Exception):
     pass
 
 
+class AnyBecomesUnion(Exception):
+    """an Any argument matched a union type permissively: if it is narrowed it turns into a union argument, which the
+    union-free reference does not model (unions are the union law's business)"""
+
+
 def ref_isof(var, ttext, exclude_any, env):
     from pyanalyze.value import AnyValue
 
@@ -435,8 +453,11 @@ def ref_isof(var, ttext, exclude_any, env):
         return [(False, env)]
     out = [(True, env)]
     if isinstance(entry_value(cur), AnyValue) and not isinstance(type_value(ttext), AnyValue):
-        # silent: is an Any argument narrowed by a permissive match?  (if so, to each member of T separately)
-        out += [(True, {**env, var: e}) for e in narrowed_entries(ttext)]
+        # silent: is an Any argument narrowed by a permissive match?
+        entries = narrowed_entries(ttext)
+        if len(entries) > 1:
+            raise AnyBecomesUnion()
+        out.append((True, {**env, var: entries[0]}))
     return out
 
 
@@ -489,12 +510,14 @@ def ref_block(block, states, kinds, done):
                     still = set()
                     for e in pending:
                         for v, e2 in ref_cond(cond, dict(e), kinds):
-                            if v:
-                                outs = ref_block(blk, {(_freeze(e2), errs)}, kinds, done)
-                                # silent: does a narrowing made for the branch survive the end of the `if`?
-                                nxt |= outs | {(env, er) for _, er in outs}
-                            else:
-                                still.add(_freeze(e2))
+                            # silent: which narrowings made while evaluating the condition hold in the branch taken
+                            for e3 in {_freeze(e2), e}:
+                                if v:
+                                    outs = ref_block(blk, {(e3, errs)}, kinds, done)
+                                    # silent: does a narrowing made for the branch survive the end of the `if`?
+                                    nxt |= outs | {(env, er) for _, er in outs}
+                                else:
+                                    still.add(e3)
                     pending = still
                 for e in pending:
                     outs = ref_block(st[2] or [], {(e, errs)}, kinds, done)
@@ -605,7 +628,7 @@ class Obs:
             f" rejected={self.rejected}" if self.rejected else "")
 
 
-_MSG = re.compile(r"^In call to [^:]*: (m_\d+)$")
+_MSG = re.compile(r"^In call to [^:]*: (m_\d+(?:(?:; |, |\n)m_\d+)*)$")  # also: several messages joined into one diagnostic
 
 
 def observe(cases):
@@ -650,13 +673,15 @@ def observe(cases):
         for d in by_line.get(ln, []):
             m = _MSG.match(d.description)
             if d.code == "incompatible_call" and m:
-                o.shown.append(m.group(1))
+                o.shown += re.findall(r"m_\d+", m.group(1))
             elif d.code != "reveal_type":
                 o.other.append(d.short())
         r = rec.get(ln)
         o.fired = sorted(r[0][0]) if r else None
         o.positions = r[0][1] if r else None
         o.rejected = "; ".join(o.other) if o.other else ("" if r else "evaluator did not run")
+        if not o.rejected and o.members is None:
+            o.rejected = "no reveal_type diagnostic"
         o.shown.sort()
         return o
 
@@ -691,7 +716,12 @@ def judge(fn, call, main: Obs, subs: list, stats=None):
             out.append(("diagnostics", "errors", direction, f"fired {o.fired} but shown {o.shown}", fn, c))
     if main.rejected or any(o.rejected for o in subs):
         return out
-    if mcalls:
+    if mcalls and _any_member_permissive(fn, call):
+        # whether a permissive match narrows the Any member is not specified, and the two sides of the law may
+        # legitimately differ in it
+        if stats is not None:
+            stats("law-skipped-any-member-permissive", None)
+    elif mcalls:
         # the union law, on real results only
         exp_t = frozenset().union(*[o.members for o in subs])
         exp_e = set().union(*[set(o.fired) for o in subs])
@@ -714,6 +744,10 @@ def judge(fn, call, main: Obs, subs: list, stats=None):
         except Overflow:
             if stats is not None:
                 stats("ref-overflow", None)
+            continue
+        except AnyBecomesUnion:
+            if stats is not None:
+                stats("ref-skipped-any-becomes-union", None)
             continue
         if stats is not None:
             stats("ref", (b, allowed, o))
@@ -738,6 +772,13 @@ def judge(fn, call, main: Obs, subs: list, stats=None):
             out.append(("ref", "errors", _direction(set(real[1]), set(best[1])) if len(allowed) == 1 else "not-permitted",
                         f"specification fires {list(best[1])}{und}, pyanalyze fires {list(real[1])}", fn, c))
     return out
+
+
+def _any_member_permissive(fn, call) -> bool:
+    b = bind(fn, call) or {}
+    with_any = {p for p, (_, _, entry) in b.items()
+                if entry in ATOMS and ATOMS[entry][2] and any(ATOMS[m][3] == "any" for m in ATOMS[entry][2])}
+    return any(n == "is_of_type[exclude_any=False]" and p in with_any for n, p in prims_of(fn["body"]))
 
 
 def _direction(real, exp) -> str:
@@ -979,7 +1020,9 @@ def minimise(fn, call, cls):
 
 def same_class(v, cls) -> bool:
     # an undecided case ("not-permitted") may turn into a decided one, showing in either output, while it shrinks
-    return v[0] == cls[0] and (v[1:3] == cls[1:3] or cls[2] == "not-permitted")
+    if cls[0] == "ref":  # the direction of a disagreement with the reference is incidental
+        return v[0] == "ref" and (v[1] == cls[1] or cls[2] == "not-permitted")
+    return v[:3] == cls[:3]
 
 
 def _always_returns(block) -> bool:
@@ -1494,7 +1537,7 @@ def run_systematic(ctx, minimised) -> None:
 
 
 def shard(ctx) -> None:
-    n_bodies = ctx.pick(1600, 24000)
+    n_bodies = ctx.pick(1600, 16000)
     n_calls = 25
     pending, lines = [], 0
     minimised: dict = {}
